@@ -157,6 +157,14 @@ def c02(m, h, i, s):
                 sizes += p["size"]
                 npos += 1 if p["size"] else 0
         m.stats["checked"] += 1
+        # every stored position's direction agrees with the sign of its size (the next whole-position swap is built
+        # from the stored direction and |size|)
+        for t in h.accounts:
+            p = pos(s.obs, v, t)
+            if p and p["size"] != 0 and (p["dir"] == "A") != (p["size"] > 0):
+                q = pos(s.pre, v, t)
+                if not (q and q["size"] != 0 and (q["dir"] == "A") != (q["size"] > 0)):
+                    m.bad(h, i, "direction_sign_mismatch", f"position of {t} on {v}: direction {p['dir']} with size {p['size']}")
         if npos >= 2:
             path = classify_path(h, i)
             if path:
@@ -564,6 +572,11 @@ def c10(m, h, i, s):
 
 # ------------------------------------------------------------------------------------------- C11
 def c11(m, h, i, s):
+    # the cumulative premium fraction moves in a successful PayFunding on that vAMM and nowhere else
+    for v in h.vamms:
+        if I(s.obs, f"v{v}.cpf", 0) != I(s.pre, f"v{v}.cpf", 0) and s.pre.get(f"v{v}.cpf") is not None:
+            if not (s.kind == "eng" and s.verb() == "payfunding" and s.ok and int(s.toks[4]) == v):
+                m.bad(h, i, "fraction_moved_outside_funding", f"cumulative premium fraction of {v} went {I(s.pre, f'v{v}.cpf', 0)} -> {I(s.obs, f'v{v}.cpf', 0)} in {s.text}")
     if s.kind != "eng":
         return
     verb = s.verb()
